@@ -164,12 +164,15 @@ func (h *history) scribbleStep() {
 	case 0:
 		if len(h.retBytes) > 0 {
 			b := h.retBytes[r.Intn(len(h.retBytes))]
-			copy(b, r.Bytes(len(b)))
-			if r.Bool() {
-				for i := range b {
-					b[i] = 0
+			nb, zero := r.Bytes(len(b)), r.Bool()
+			c.rawWrite("returned byte slice", func() map[string]any { return h.det(nil) }, func() {
+				copy(b, nb)
+				if zero {
+					for i := range b {
+						b[i] = 0
+					}
 				}
-			}
+			})
 			h.log = append(h.log, "scribble over a Bytes result")
 			c.Tally("scribble:bytes")
 		}
@@ -179,7 +182,7 @@ func (h *history) scribbleStep() {
 			if r.Bool() {
 				e.Set(gen.Canon(r.BigBelow(ref.P)))
 			} else {
-				scribbleElem(e, [5]uint64{r.U64() >> 13, r.U64() >> 13, 0, r.U64() >> 13, 1})
+				h.scribbleElemRaw(e, [5]uint64{r.U64() >> 13, r.U64() >> 13, 0, r.U64() >> 13, 1}, "element returned by ExtendedCoordinates")
 			}
 			h.log = append(h.log, "scribble over an ExtendedCoordinates element")
 			c.Tally("scribble:element")
@@ -203,7 +206,7 @@ func (h *history) scribbleStep() {
 				}
 			}
 			if raw.PointOK() {
-				raw.SetPointLimbs(p, l)
+				c.rawWrite("Point returned by a constructor", func() map[string]any { return h.det(nil) }, func() { raw.SetPointLimbs(p, l) })
 			} else {
 				p.Subtract(p, edwards25519.NewGeneratorPoint())
 			}
@@ -216,7 +219,7 @@ func (h *history) scribbleStep() {
 		s := edwards25519.NewScalar()
 		s.Add(s, gen.LibScalar(r.BigBelow(ref.L)))
 		if l := [4]uint64{r.U64(), r.U64(), r.U64(), r.U64() >> 4}; raw.ScalarOK() {
-			raw.SetScalarLimbs(s, l)
+			c.rawWrite("Scalar returned by NewScalar", func() map[string]any { return h.det(nil) }, func() { raw.SetScalarLimbs(s, l) })
 		} else {
 			s.Negate(s)
 		}
@@ -226,12 +229,21 @@ func (h *history) scribbleStep() {
 		// field constructors: One()/Zero() results are the receiver; mutate them
 		e := new(field.Element).One()
 		e.Add(e, e)
-		scribbleElem(e, [5]uint64{r.U64() >> 13, 7, 7, 7, 7})
+		h.scribbleElemRaw(e, [5]uint64{r.U64() >> 13, 7, 7, 7, 7}, "Element returned by One()")
 		z := new(field.Element).Zero()
 		z.Subtract(z, e)
 		h.log = append(h.log, "scribble over One()/Zero() receivers")
 		c.Tally("scribble:field-constructors")
 	}
+}
+
+// scribbleElemRaw is scribbleElem with the raw store bracketed by package-state digests.
+func (h *history) scribbleElemRaw(e *field.Element, l [5]uint64, what string) {
+	if raw.ElementOK() {
+		h.c.rawWrite(what, func() map[string]any { return h.det(nil) }, func() { raw.SetLimbs(e, l) })
+		return
+	}
+	scribbleElem(e, l)
 }
 
 // scribbleElem overwrites e: raw limbs when the layout is the known one, else through Set.
